@@ -215,6 +215,38 @@ class Model:
             for k, v in cc.items():
                 if "." not in k and k not in rc and k not in ids:
                     _equiv.EXTRA_CONSTS[k] = v
+        _equiv.EXTRA_HELPERS = {}
+        for m in changed:
+            cft = _equiv.function_table(m.tree)
+            rft = _equiv.function_table(reference_module(m.relpath)[1])
+            for k, v in cft.items():
+                if "." not in k and "#" not in k and k not in rft and k not in ids:
+                    _equiv.EXTRA_HELPERS[k] = v[0]
+        # a module-level literal table moved to another module (IDENTITY_ENCODER): the reviewed module keeps a definition
+        for m in changed:
+            cc = _equiv.const_table(m.tree)
+            rc = _equiv.const_table(reference_module(m.relpath)[1])
+            for k, v in rc.items():
+                if "." in k or k in cc:
+                    continue
+                for other in changed:
+                    if other is m:
+                        continue
+                    oc = _equiv.const_table(other.tree)
+                    orc = _equiv.const_table(reference_module(other.relpath)[1])
+                    if k in oc and k not in orc and _equiv.dump(oc[k]) == _equiv.dump(v):
+                        m.tree = _copy.deepcopy(m.tree)
+                        body = []
+                        for st in m.tree.body:
+                            if isinstance(st, ast.ImportFrom):
+                                st.names = [a for a in st.names if (a.asname or a.name) != k]
+                                if not st.names:
+                                    continue
+                            body.append(st)
+                        m.tree.body = body + [ast.Assign(targets=[ast.Name(id=k, ctx=ast.Store())], value=_copy.deepcopy(v))]
+                        ast.fix_missing_locations(m.tree)
+                        self.heal_log.append(f"{m.relpath}:{k}: table moved to {other.relpath} unchanged; also analysed at its reviewed place")
+                        break
         renames: Dict[str, str] = {}
         for m in changed:
             for new, old in detect_renames(m.relpath, m.src, m.tree).items():
